@@ -303,6 +303,10 @@ func TestC02RandomHistories(t *testing.T) {
 			ev.Sample("c02:random-history", map[string]interface{}{"capacities": caps, "history": hist})
 		}
 		s.crossCheckAPI()
+		// what the reports added up to is the same after the log has been replayed
+		s.restart(s.now)
+		check()
+		s.crossCheckAPI()
 		s.close()
 	})
 }
